@@ -51,7 +51,12 @@ Retry1 == CaseRetry(1)
 FF2 == CaseFF(2, TRUE)
 NoFF2 == CaseFF(2, FALSE)
 
+\* tracing: two concurrent scenarios with a before hook and one step each
+LogScen == [S1 |-> Sn("F1", "", FALSE, -1, 0, 1, <<St("S1", 1, FALSE, "run")>>),
+            S2 |-> Sn("F1", "", FALSE, 1, 0, 2, <<St("S2", 1, FALSE, "run")>>)]
+Log2 == Case(2, FALSE, TRUE, TRUE, [F1 |-> Ft(2, 0, 2, <<"S1", "S2">>)], <<>>, LogScen, <<PF("F1")>>)
+
 VIEW_NoStats ==
   <<pPos, pDone, qS, qC, epc, slots, batch, run, serialStarted, finQ, cntF, cntR, now, nid, nfail,
-    [o EXCEPT !.stats = 0]>>
+    logChan, nlogs, [o EXCEPT !.stats = 0, !.ndelivered = 0]>>
 =============================================================================
